@@ -141,15 +141,26 @@ func runC04(c *fw.Ctx) {
 	layouts := append([]LayoutDef{}, CoreLayouts...)
 	layouts = append(layouts, LP)
 	eras := []string{"mid", "high", "low"}
+	ncore := len(layouts)
 	if c.Thorough() {
 		layouts = append(layouts, AllSmallLayouts()...)
+	} else {
+		for _, ld := range AllSmallLayouts() { // quick: every one- and two-level small layout on three clocks of today's era
+			if len(ld.Archs) <= 2 {
+				layouts = append(layouts, ld)
+			}
+		}
 	}
-	c.R.Bounds["layouts"] = fmt.Sprint(len(layouts))
+	c.R.Bounds["layouts"] = fmt.Sprintf("%d core (all eras, 3 page sizes) + %d further small layouts (quick: k<=2 on 3 clocks; thorough: all 3405 on 6 clocks x 3 eras)", ncore, len(layouts)-ncore)
 	c.R.Bounds["eras"] = "mid(1.7e9) high(2^31+1e6) low(Rmax+P)"
 	c.R.Bounds["windows"] = "all pairs of instants in [now-Rmax-2, now+2] (boundary instants when Rmax>24) + from in {0,1} + until in {0,2^32-1} + inverted"
 	for li, ld := range layouts {
 		full := c.Thorough() && li < len(CoreLayouts)
 		clocks := Clocks(ld.Archs, c.Thorough() && li < len(CoreLayouts)+1, eras)
+		if !c.Thorough() && li >= ncore {
+			m := Clocks(ld.Archs, false, []string{"mid"})
+			clocks = []int64{m[0], m[len(m)/2], m[len(m)-1]}
+		}
 		for _, now := range clocks {
 			if !c.Mine() {
 				continue
